@@ -141,6 +141,31 @@ def fields_case(run, specs, t, gamma, pts, dt, psd, alpha):
     return ok
 
 
+def representation_cases(run):
+    """the same points / density matrix passed as other kinds of ndarray (Fortran order, strided view, read-only, int64, float32)"""
+    from gbasis.evals import density as D
+    rng = run.rng
+    cs = []
+    specs = [rand_shell(rng, l, cs, nprim=1 + l, nseg=1, exp_hi=5.0) for l in (0, 1)]
+    basis = make_basis(specs)
+    n = sum(s.size for s in specs)
+    pts = np.array([[0.0, 1.0, -1.0], [2.0, 0.0, 1.0]])
+    g = np.eye(n) * 2.0
+    g[0, n - 1] = g[n - 1, 0] = 1.0
+    rep = {"basis": core.describe_basis(specs), "points": pts.tolist(), "gamma": g.tolist()}
+    funcs = {"evaluate_density": lambda d, p: D.evaluate_density(d, basis, p),
+             "evaluate_deriv_density(1,0,2)": lambda d, p: D.evaluate_deriv_density(np.array([1, 0, 2]), d, basis, p),
+             "evaluate_density_gradient": lambda d, p: D.evaluate_density_gradient(d, basis, p),
+             "evaluate_density_laplacian": lambda d, p: D.evaluate_density_laplacian(d, basis, p),
+             "evaluate_density_hessian": lambda d, p: D.evaluate_density_hessian(d, basis, p),
+             "evaluate_posdef_kinetic_energy_density": lambda d, p: D.evaluate_posdef_kinetic_energy_density(d, basis, p),
+             "evaluate_general_kinetic_energy_density": lambda d, p: D.evaluate_general_kinetic_energy_density(d, basis, p, 0.5)}
+    for name, f in funcs.items():
+        repr_case(run, name, "points", lambda p, f=f: f(g, p), pts, rep)
+        if run.tier != "quick" or name in ("evaluate_density", "evaluate_density_gradient", "evaluate_density_hessian"):
+            repr_case(run, name, "one_density_matrix", lambda d, f=f: f(d, pts), g, rep)
+
+
 def check(run):
     rng = run.rng
     quick = run.tier == "quick"
@@ -160,6 +185,7 @@ def check(run):
         specs, t, gamma, pts, psd = setup(rng, quick, lmax=2)
         gamma = -np.abs(gamma) @ np.abs(gamma).T * 0.01
         fields_case(run, specs, t, gamma, pts, "general", False, 0.25)
+    representation_cases(run)
 
 
 def replay(run, rep):
@@ -167,7 +193,9 @@ def replay(run, rep):
     specs = specs_from(rep)
     t = None if rep.get("transform") is None else np.array(rep["transform"])
     gamma, pts = np.array(rep["gamma"]), np.array(rep["points"])
-    if rep.get("case") == "deriv":
+    if rep.get("case") == "representation":
+        representation_cases(run)
+    elif rep.get("case") == "deriv":
         deriv_case(run, specs, t, gamma, pts, tuple(rep["orders"]), rep["deriv_type"])
     else:
         fields_case(run, specs, t, gamma, pts, rep["deriv_type"], rep.get("psd", False), rep.get("alpha", 0.25))
